@@ -149,7 +149,12 @@ def same_run(a, b_, gcs=None, nveh=None, prefix=False):
     # prefix mode: the added part may abort the run earlier; compare the steps both runs report as valid
     n = min(a["step_i"] - (1 if a["aborted"] else 0), b_["step_i"] - (1 if b_["aborted"] else 0)) if prefix else a["step_i"]
     for g in (gcs or a["total"]):
-        if (not prefix and len(a["total"][g]) != len(b_["total"][g])) or any(not near(x, y) for x, y in zip(a["total"][g][:n], b_["total"][g][:n])):
+        # prefix mode: the step at which the added part aborts the run is reported as well and must still agree at the existing connectors
+        # (only when the strategy completed that step, i.e. commands were issued: a step that raised is reported with placeholder zeros)
+        n2 = n
+        if prefix and len(b_["cmds"]) > n and b_["cmds"][n] and len(a["cmds"]) > n and a["cmds"][n]:
+            n2 = min(len(a["total"][g]), len(b_["total"][g]), n + 1)
+        if (not prefix and len(a["total"][g]) != len(b_["total"][g])) or any(not near(x, y) for x, y in zip(a["total"][g][:n2], b_["total"][g][:n2])):
             return "connector power series of %s differ" % g
     for x, y in list(zip(a["socs"], b_["socs"]))[:n]:
         xs, ys = (x[:nveh], y[:nveh]) if nveh else (x, y)
@@ -164,7 +169,18 @@ class HistoryUnit(corr.Unit):
 
     def generate(self, rng, n, biased=False):
         out = []
-        for _ in range(n):
+        # directed: a connector whose limit binds (hungry vehicles), compared with the same scenario plus an unrelated connector that
+        # comes first and owns a charged battery (even seed => first): state kept across connectors inside a step shows here
+        for k in range(min(n, 4)):
+            js = scen.gen_scenario(rng, n_gc=1, n_veh=3, features=set(), steps=6, interval=60)
+            js.pop("_features", None)
+            for g in js["components"]["grid_connectors"].values():
+                g["max_power"] = rng.choice([8, 12])
+            for v in js["components"]["vehicles"].values():
+                v.update({"soc": 0.1, "desired_soc": 1.0})
+            out.append({"js": js, "strategy": ["greedy", "balanced", "distributed", "greedy"][k], "options": {"ALLOW_NEGATIVE_SOC": True},
+                        "weeks": 1, "other": "balanced", "seed": 2 * rng.randrange(10**5)})
+        for _ in range(n - len(out)):
             strategy = rng.choice(["greedy", "balanced", "distributed", "balanced_market", "peak_shaving", "peak_shaving"])
             slow = strategy in ("balanced_market", "peak_shaving")
             js = scen.gen_scenario(rng, n_gc=rng.choice([1, 2]) if not slow else 1, steps=rng.choice([6, 12, 24]) if not slow else 8,
